@@ -143,6 +143,11 @@ class L5_core(Lemma):
         X = rnd_grid(s, c1, A, p, n, rm)
         Y = rnd_grid(s, c2, A2, p, n, rm)
         return {
+            # c2 is 2*c1 up to one unit; Euclidean division of both
+            'delta': -1 <= 2 * c1 - c2 and 2 * c1 - c2 <= 1 and c1 >= 0 and c2 >= 0,
+            'div1': c1 == q1 * A + r1 and 0 <= r1 and r1 < A,
+            'parity0': fmod(r1, 2) == fmod(c1, 2),
+            'delta_parity': implies(2 * c1 - c2 == 1, fmod(c1, 2) == 1),
             'quotient': q1 == q2,
             'remainder': r2 == 2 * r1 - (2 * c1 - c2),
             'parity': fmod(r1, 2) == fmod(c1, 2),
